@@ -37,18 +37,44 @@ Section InlInd.
 End InlInd.
 
 (* ---- C10.1: the cleanup touches exactly the wholly-bold ATX headings ---- *)
-Definition wholly_bold (l : leaf) : option leaf :=
-  match l with
-  | LHeading sx lv [INode KStrong _ as e] => Some (LHeading sx lv (unwrap_strong e))
-  | LHeading sx lv [INode KEmph [INode KStrong cs]] => Some (LHeading sx lv [INode KEmph cs])
+(* [wholly_bold l]: l is a heading whose entire content is bold (Some: the heading without it), where bold
+   directly inside bold counts as bold, and what is left is treated again when it is italics around bold *)
+Definition strip_bold (c : list inl) : option (list inl) :=
+  match c with
+  | [INode KStrong _ as e] => Some (unwrap_strong e)
   | _ => None
   end.
+Definition strip_bold_in_italics (c : list inl) : option (list inl) :=
+  match c with
+  | [INode KEmph inner] => match strip_bold inner with Some x => Some [INode KEmph x] | None => None end
+  | _ => None
+  end.
+Definition wholly_bold (l : leaf) : option leaf :=
+  match l with
+  | LHeading sx lv c =>
+      match strip_bold c with
+      | Some c1 => Some (LHeading sx lv (match strip_bold_in_italics c1 with Some c2 => c2 | None => c1 end))
+      | None => match strip_bold_in_italics c with Some c2 => Some (LHeading sx lv c2) | None => None end
+      end
+  | _ => None
+  end.
+
+Lemma unbold_outer_spec c : unbold_outer c = match strip_bold c with Some x => x | None => c end.
+Proof.
+  destruct c as [|[?|?|?|?|?|?|k inner] [|e2 r]]; try reflexivity; destruct k; reflexivity.
+Qed.
+Lemma unbold_inner_spec c : unbold_inner c = match strip_bold_in_italics c with Some x => x | None => c end.
+Proof.
+  destruct c as [|[?|?|?|?|?|?|k inner] [|e2 r]]; try reflexivity; destruct k; try reflexivity.
+  all: destruct inner as [|[?|?|?|?|?|?|k2 c2] [|e3 r3]]; try reflexivity; destruct k2; reflexivity.
+Qed.
 
 Theorem unbold_spec l :
   unbold_leaf l = match wholly_bold l with Some l' => l' | None => l end.
 Proof.
-  unfold unbold_leaf, wholly_bold.
-  repeat match goal with |- context [match ?x with _ => _ end] => destruct x end; reflexivity.
+  destruct l; try reflexivity. unfold unbold_leaf, wholly_bold.
+  rewrite unbold_outer_spec. destruct (strip_bold _) as [c1|]; rewrite unbold_inner_spec; [reflexivity|].
+  destruct (strip_bold_in_italics _); reflexivity.
 Qed.
 
 (* everything that is not such a heading is untouched, at any nesting depth *)
